@@ -115,14 +115,14 @@ def verify(props=None, functions=None, timeout_s=10.0, repo=None, procs=None):
             quals.append(q)
     repo = repo or os.environ.get("PYVC_REPO", "/repo")
     jobs = [(q, timeout_s, repo) for q in quals]
-    procs = procs or min(16, max(1, len(jobs)))
+    procs = procs or int(os.environ.get("PYVC_PROCS", "0")) or min(16, max(1, len(jobs)))
     ctx = mp.get_context("fork")
     from pyvc.solve import discharge_text, check_sat_text
     with ctx.Pool(procs, maxtasksperchild=1) as pool:
         res = pool.map(verify_one, jobs, chunksize=1)
     # phase 2: every obligation is an independent query; discharge all of them 16-wide
     items = [(ri, oi) for ri, r in enumerate(res) for oi in range(len(r["obligations"]))]
-    with ctx.Pool(min(16, max(1, len(items))), maxtasksperchild=50) as pool:
+    with ctx.Pool(min(int(os.environ.get("PYVC_PROCS", "0")) or 16, max(1, len(items))), maxtasksperchild=50) as pool:
         outs = pool.map(discharge_text, [res[ri]["obligations"][oi] for ri, oi in items], chunksize=1)
         citems = [(ri, ci) for ri, r in enumerate(res) for ci in range(len(r["covers"]))]
         couts = pool.map(_cover, [res[ri]["covers"][ci]["smt2"] for ri, ci in citems], chunksize=1)
